@@ -9,7 +9,7 @@
       (a total function even when true entries overlap);
     - [bsem terms v e]: the truth value of a boolean expression when the terminal
       expressions listed in [terms] are assigned by [v] - the Boolean skeleton
-      (literal, not, and, or, xor, implies) over terminals;
+      (literal, not, and, or, xor, implies over boolean operands) over terminals;
     - [tval rho terms]: the valuation induced by an assignment [rho] of the symbols,
       through the SMT-LIB semantics [ebv] of Spec/Eval.v.
 
@@ -45,15 +45,21 @@ Definition partition (s : summary) : Prop := forall v, count_true v s = 1%nat.
 (** the summary is a total function of the valuation *)
 Definition functional (s : summary) : Prop := forall v, exists x, denotes v s x.
 
+Definition term_val (terms : list expr) (v : nat -> bool) (e : expr) : bool :=
+  match index_of e terms with Some i => v i | None => false end.
+
+(** A connective is read as a connective iff all its operands are boolean (for a well-typed
+    boolean expression: always); anything else is a terminal. *)
 Fixpoint bsem (terms : list expr) (v : nat -> bool) (e : expr) {struct e} : bool :=
+  let allb := forallb expr_is_bool (children e) in
   match e with
   | BVLiteral w x => (w =? 1) && (x =? 1)
-  | BVNot a _ => negb (bsem terms v a)
-  | BVAnd a b _ => bsem terms v a && bsem terms v b
-  | BVOr a b _ => bsem terms v a || bsem terms v b
-  | BVXor a b _ => xorb (bsem terms v a) (bsem terms v b)
-  | BVImplies a b => implb (bsem terms v a) (bsem terms v b)
-  | _ => match index_of e terms with Some i => v i | None => false end
+  | BVNot a _ => if allb then negb (bsem terms v a) else term_val terms v e
+  | BVAnd a b _ => if allb then bsem terms v a && bsem terms v b else term_val terms v e
+  | BVOr a b _ => if allb then bsem terms v a || bsem terms v b else term_val terms v e
+  | BVXor a b _ => if allb then xorb (bsem terms v a) (bsem terms v b) else term_val terms v e
+  | BVImplies a b => if allb then implb (bsem terms v a) (bsem terms v b) else term_val terms v e
+  | _ => term_val terms v e
   end.
 
 Definition tval (rho : env) (terms : list expr) : nat -> bool :=
